@@ -138,3 +138,68 @@ def r4(rr, repo):
         st = [e for e in p.events if e.kind == 'store' and e.term == 'self.read_file']
         ok = bool(wh) and all(p.events.index(wh[0]) < p.events.index(x) for x in closes + st)
         rr.ob('close() saves the position before closing / invalidating the reader', ok, cmod, cfn, witness=' '.join(e.term for e in p.events if e.kind == 'call')[:200], key='close-saves-first')
+
+
+@rule('C14.R5', 'restore lands on or before the saved record: seek() opens the saved file and seeks to exactly the saved offset; if that file is gone it moves to the first NEWER file at offset 0 (or the end), never past an existing unread file')
+def r5(rr, repo):
+    mod, fn, paths = fn_paths(repo, 'seek', unroll_for=1)
+    rr.paths += len(paths)
+    rows = set()
+    param = q.func_params(fn)[1]
+    for p in paths:
+        found = [v for kk, v in p.pc if kk.startswith('eq(os.path.basename(__elem__(')]
+        newer = None
+        for kk, v in p.pc:
+            if kk.startswith('ord(') and '.timestamp' in kk and '__elem__' in kk:
+                inner = kk[4:-1]
+                newer = (v if inner.startswith('__elem__(') else {'<': '>', '>': '<', '=': '='}[v]) == '>'
+        st = [e for e in p.events if e.kind == 'store' and e.term == 'self.read_idx']
+        opens = [e for e in p.events if e.kind == 'call' and e.term == 'open']
+        seeks = [e for e in p.events if e.kind == 'call' and e.term.endswith('.seek') and 'open(' in e.term]
+        if p.outcome is not None and p.outcome[0] == 'raise':
+            continue
+        if found and found[0] is True:
+            rows.add('found')
+            end = [v for kk, v in p.pc if kk == f"eq('end', {param}[1])"]
+            ok = bool(opens) and bool(st) and st[-1].args[0].endswith('[0]') and '__elem__' in st[-1].args[0] and opens[0].args[1].strip('\'"') == 'rb'
+            rr.ob('the saved file is opened read-only and becomes the current file', ok, mod, opens[0].node if opens else fn, key='seek-open')
+            if end and end[0] is False:
+                rr.ob('the reader is positioned at exactly the saved offset', bool(seeks) and seeks[0].args == (f'{param}[1]',), mod, seeks[0].node if seeks else fn, witness=str(seeks[0].args) if seeks else 'no seek', key='seek-offset')
+        elif newer is True:
+            rows.add('newer')
+            rr.ob('saved file gone: continue at the start of the first newer file', bool(st) and st[-1].args[0].endswith('[0]') and not opens, mod, st[-1].node if st else fn, key='seek-newer')
+        elif st and st[-1].args[0] == 'len(self.logfiles)':
+            rows.add('end')
+        elif st and st[-1].args[0] in ('0',):
+            rows.add('start')
+    rr.floor('rows of the seek decision table', len(rows), 4, mod, fn)
+    # the comparison that stops the scan is strict (a file with the SAME timestamp is the saved file, not a newer one)
+    strict = [n for n in ast.walk(fn) if isinstance(n, ast.Compare) and 'timestamp' in U(n.left) and 'seek_timestamp' in U(n)]
+    rr.ob('"newer" is a strict comparison of file timestamps', bool(strict) and all(isinstance(c.ops[0], ast.Gt) for c in strict), mod, strict[0] if strict else fn, key='seek-strict')
+
+
+@rule('C14.R6', "what is saved is the next unread byte: tell() reports (current file, the open file's own offset) - 0 if the file is not open yet - and (last file, its size) / ('start', 0) at the end")
+def r6(rr, repo):
+    mod, fn, paths = fn_paths(repo, 'tell')
+    rr.paths += len(paths)
+    n = 0
+    for p in paths:
+        o = p.outcome
+        if o is None or o[0] != 'return' or o[1] is None:
+            continue
+        rel = None
+        for kk, v in p.pc:
+            if kk == 'ord(len(self.logfiles), self.read_idx)':
+                rel = v
+        t = U(o[1])
+        if rel == '>':
+            n += 1
+            ok = t.startswith('(os.path.basename(self.logfiles[self.read_idx].path), 0 if self.read_file is None else self.read_file.tell()')
+            rr.ob('inside the list: (name of logfiles[read_idx], read_file.tell() or 0 when not opened yet)', ok, mod, fn, witness=t[:140], key='tell-current')
+        elif rel in ('<', '='):
+            n += 1
+            if p.facts.get('truthy(len(self.logfiles))') is True:
+                rr.ob('at the end: (name of the last file, its recorded size)', t == '(os.path.basename(self.logfiles[-1].path), self.logfiles[-1].size)', mod, fn, witness=t[:140], key='tell-end')
+            else:
+                rr.ob("no files at all: ('start', 0)", t.replace('"', "'") == "('start', 0)", mod, fn, witness=t, key='tell-empty')
+    rr.floor('returning paths of tell()', n, 3, mod, fn)
